@@ -1002,34 +1002,42 @@ def min_stmt(s):
 
 
 def precedence_family():
-    """(body, ctx): every expression form directly under every other one, in every operand position, with
-    operand values that tell the groupings apart (the random programs get their minimal-parentheses
-    printing too; this family makes the pairs certain)."""
+    """(body, ctx): every expression form directly under every other one, in every operand position whose
+    type admits it (the programs stay inside the typed fragment: no arithmetic on booleans, no ordering
+    across kinds), with operand values that tell the groupings apart (the random programs get their
+    minimal-parentheses printing too; this family makes the pairs certain)."""
     I = lambda n: ("int", n); V = lambda x: ("var", x); S = lambda t: ("str", t)
     ctx = {"a": 7, "b": 2, "c": 3, "t": True, "f": False, "s": "x", "l": [5, -6, 7], "z": 0}
     atoms = [V("a"), V("b"), I(3), I(-4), V("z")]
     def forms(x, y, w):
-        """every constructor with operands x, y, w"""
-        return [("ifexpr", x, y, w), ("ifexpr", x, y, None), ("or", x, y), ("and", x, y), ("not", x),
-                ("cmp", x, [("<", y)]), ("cmp", x, [("==", y)]), ("cmp", x, [("<", y), ("<=", w)]), ("cmp", x, [("in", ("list", [y, w]))]),
-                ("cmp", x, [("notin", ("list", [y]))]), ("bin", "+", x, y), ("bin", "-", x, y), ("bin", "~", x, y), ("bin", "*", x, y),
-                ("bin", "//", x, ("or", y, I(1))), ("bin", "%", x, ("or", y, I(5))), ("neg", x), ("filter", "abs", x, []), ("filter", "string", x, []),
-                ("filter", "default", x, [y]), ("test", "odd", x, [], False), ("test", "defined", x, [], True), ("test", "none", x, [], False),
-                ("item", ("list", [x, y, w]), I(1)), ("item", V("l"), x), ("list", [x, y])]
+        """(expression, type of its value, types its operands x, y, w must have); operands default to ints"""
+        A, N = "any", "int"
+        return [(("ifexpr", x, y, w), N, (A, N, N)), (("ifexpr", x, y, None), A, (A, A, None)), (("or", x, y), N, (N, N, None)), (("and", x, y), N, (N, N, None)),
+                (("not", x), "bool", (A, None, None)),
+                (("cmp", x, [("<", y)]), "bool", (N, N, None)), (("cmp", x, [("==", y)]), "bool", (A, A, None)), (("cmp", x, [("<", y), ("<=", w)]), "bool", (N, N, N)),
+                (("cmp", x, [("in", ("list", [y, w]))]), "bool", (A, A, A)), (("cmp", x, [("notin", ("list", [y]))]), "bool", (A, A, None)),
+                (("bin", "+", x, y), N, (N, N, None)), (("bin", "-", x, y), N, (N, N, None)), (("bin", "~", x, y), "str", (A, A, None)), (("bin", "*", x, y), N, (N, N, None)),
+                (("bin", "//", x, ("or", y, I(1))), N, (N, N, None)), (("bin", "%", x, ("or", y, I(5))), N, (N, N, None)), (("neg", x), N, (N, None, None)),
+                (("filter", "abs", x, []), N, (N, None, None)), (("filter", "string", x, []), "str", (A, None, None)), (("filter", "default", x, [y]), N, (N, N, None)),
+                (("test", "odd", x, [], False), "bool", (N, None, None)), (("test", "defined", x, [], True), "bool", (A, None, None)), (("test", "none", x, [], False), "bool", (A, None, None)),
+                (("item", ("list", [x, y, w]), I(1)), N, (N, N, N)), (("item", V("l"), x), A, (N, None, None)), (("list", [x, y]), "list", (A, A, None))]
     out = []
-    outer = forms(V("a"), V("b"), V("c"))
+    n_forms = len(forms(V("a"), V("b"), V("c")))
     k = 0
-    for oi, o in enumerate(outer):
-        # operand positions of the outer form
-        nops = 3 if o[0] in ("ifexpr",) and o[3] is not None else (1 if o[0] in ("not", "neg", "test", "filter") and o[1] != "default" else 2)
-        for pos in range(nops):
+    for oi in range(n_forms):
+        _, _, otypes = forms(V("a"), V("b"), V("c"))[oi]
+        for pos in range(3):
+            if otypes[pos] is None:
+                continue
             body = []
-            for inner in forms(atoms[k % 5], atoms[(k + 1) % 5], atoms[(k + 2) % 5]):
+            for ii in range(n_forms):
+                inner, ityp, _ = forms(atoms[k % 5], atoms[(k + 1) % 5], atoms[(k + 2) % 5])[ii]
                 k += 1
+                if otypes[pos] != "any" and ityp != otypes[pos]:
+                    continue
                 ops = [V("a"), V("b"), V("c")]
                 ops[pos] = inner
-                e = forms(*ops)[oi]
-                body += [("emit", e), ("raw", ",")]
+                body += [("emit", forms(*ops)[oi][0]), ("raw", ",")]
             for i in range(0, len(body), 16):
                 out.append((body[i:i + 16], ctx))
     # chains of one operator (associativity) and the classic pairs
@@ -1037,6 +1045,10 @@ def precedence_family():
     for op in ("-", "//", "%", "~", "+", "*"):
         out.append(([("emit", ("bin", op, ("bin", op, A, B), C)), ("raw", ","), ("emit", ("bin", op, A, ("bin", op, B, C))), ("raw", ","),
                      ("emit", ("bin", op, ("bin", op, ("bin", op, D, A), B), C)), ("raw", ","), ("emit", ("bin", op, D, ("bin", op, A, ("bin", op, B, C))))], ctx))
+    for o1, o2 in (("+", "*"), ("-", "//"), ("~", "+"), ("+", "~"), ("-", "%"), ("-", "*"), ("+", "%")):
+        x, y, w = (A, B, C)
+        out.append(([("emit", ("bin", o1, x, ("bin", o2, y, w))), ("raw", ","), ("emit", ("bin", o2, ("bin", o1, x, y), w)), ("raw", ","),
+                     ("emit", ("bin", o1, ("bin", o2, x, y), w)), ("raw", ","), ("emit", ("bin", o2, x, ("bin", o1, y, w)))], ctx))
     cond = lambda c, x, y: ("ifexpr", c, x, y)
     T, F = V("t"), V("f")
     for c1 in (T, F):
@@ -1048,7 +1060,9 @@ def precedence_family():
                              ("emit", cond(cond(c1, c2, c3), S("A"), S("B"))), ("raw", ","),                     # a conditional as condition
                              ("emit", cond(c1, S("A"), cond(c2, S("C"), None))), ("raw", ","),
                              ("emit", cond(c2, cond(c1, S("A"), None), S("E"))), ("raw", ","),
-                             ("emit", ("or", cond(c1, F, T), c3)), ("raw", ","), ("emit", cond(c1, F, ("or", T, c3)))], ctx))
+                             ("emit", ("or", cond(c1, F, T), c3)), ("raw", ","), ("emit", cond(c1, F, ("or", T, c3))), ("raw", ","),
+                             ("emit", ("and", ("or", c1, c2), c3)), ("emit", ("or", c1, ("and", c2, c3))), ("emit", ("not", ("and", c1, c2))), ("emit", ("and", ("not", c1), c2)),
+                             ("emit", ("not", ("cmp", c1, [("==", c2)]))), ("emit", ("cmp", ("not", c1), [("==", c2)]))], ctx))
     return out
 
 
@@ -1137,7 +1151,8 @@ def main():
                        "bytecode level: forward simulation proved for the whole Lang syntax (expressions incl. calls, all statements incl. filtered loops, macros, call blocks), for successful runs (same final state) and for failing runs (same error kind; nothing about the output before the error); everything outside the Lang syntax: stream correspondence + three-way output agreement only",
                        "maps: ValueMap of the default build (BTreeMap: entries in key order; the harness is built without feature preserve_order), keys of the fragment are scalars (strings, ints, bools, none), context maps have string keys (JSON); `m|items` yields [key, value] LISTS in the model where the engine yields 2-tuples (same items; printed with parentheses, unequal to lists): the generators only unpack them; `|last` refuses maps in the engine (filters.rs::last accepts sequences and iterables only) although `|first` accepts them: modelled as found, not generated",
                        "unpacking set / with with a two-name target are in the Lang syntax (any right-hand side); tuple right-hand sides, three or nested targets are outside it: the engine's rendering is compared with the reference interpreter's verdict on an element-wise equivalent program of the fragment (sequential sets through fresh temporaries)",
-                       "loop.previtem / nextitem / depth / depth0 / cycle / changed are outside Lang's loop object (7 attributes): compared engine-side only with the oracle _attr_val of this file (position in the iterated sequence; trusted Python), for iterables with a known length"]
+                       "loop.previtem / nextitem / depth / depth0 / cycle / changed are outside Lang's loop object (7 attributes): compared engine-side only with the oracle _attr_val of this file (position in the iterated sequence; trusted Python), for iterables with a known length",
+                       "parser precedence / associativity: tied through the minimal-parentheses printing min_expr of this file (grammar levels read off parser.rs: if-else < or < and < not < comparison < + - < ~ < * // % < unary minus / postfix / filter / test < primary; a test without arguments keeps its parentheses in front of a token the parser would take as its argument); extends and from-import are outside Lang: only the wrapping equivalence (leading set / set-block / macro definitions moved to the top level of a child template or into a library, programs whose prefix macros read names the rest assigns are skipped, failing programs are not compared)"]
     okm, blog = build_models("C03")
     proofs_ok = chk.run_proofs()
     okc, clog = cargo_build(["prog"], release=False)
@@ -1194,6 +1209,33 @@ def main():
         for kind, left, right, ctx in mc_equiv:
             equiv.append((len(progs), kind, left))
             progs.append((right, ctx, "lenient"))
+        prf = precedence_family()
+        for body, ctx in prf:
+            progs.append((body, ctx, "lenient"))
+        chk.cov["precedence_family_cases"] = len(prf)
+        capf = capture_family()
+        cap_start = len(progs)
+        for body, ctx in capf:
+            progs.append((body, ctx, "lenient"))
+        # every program with leading definitions: as the child of a trivial layout (definitions at the child's top level, the rest
+        # in the one block) and as a library (the definitions) + a template importing all its names: both must render what it does alone
+        BASE = "{% block body %}{% endblock %}"
+        n_wrap = 0
+        for i in list(range(0, min(n, 1500 if not chk.thorough else n))) + list(range(cap_start, cap_start + len(capf))):
+            body, ctx, mode = progs[i]
+            w = wrap_program(body)
+            if w is None:
+                continue
+            prefix, rest, defined = w
+            j = i
+            if prefix + rest != body:
+                j = len(progs); progs.append((prefix + rest, ctx, mode))
+            pre_src, rest_src = proggen.body_src(prefix), proggen.body_src(rest)
+            if not rest_src.endswith("\n"):        # (the final newline of a template is dropped, the one in front of endblock is not)
+                equiv.append((j, "extends_child", {"main": '{% extends "base" %}' + pre_src + "{% block body %}" + rest_src + "{% endblock %}", "base": BASE}))
+            equiv.append((j, "from_import", {"main": '{% from "lib" import ' + ", ".join(defined) + " %}" + rest_src, "lib": pre_src}))
+            n_wrap += 1
+        chk.cov["wrapped_programs"] = n_wrap
         # constructs outside the Lang syntax, through their element-wise equivalents inside it
         oracle_cases = loop_attr_family(chk.rng, 3000 if chk.thorough else 300)
         for kind, left, right, ctx in equivalence_family(chk.rng, 0):
@@ -1234,7 +1276,7 @@ def main():
     eq_bad = []
     eq_hist = collections.Counter()
     if equiv:
-        ereqs = [{"templates": {"main": left}, "main": "main", "ctx": progs[i][1], "undefined": progs[i][2], "ops": ["render"]}
+        ereqs = [{"templates": (left if isinstance(left, dict) else {"main": left}), "main": "main", "ctx": progs[i][1], "undefined": progs[i][2], "ops": ["render"]}
                  for i, kind, left in equiv]
         for rel in (False, True):
             for (i, kind, left), r in zip(equiv, run_prog(ereqs, release=rel)):
@@ -1243,7 +1285,9 @@ def main():
                     eq_hist[kind] += 1
                     eq_hist[kind + ("_ok" if e[:1] == [0] else "_err")] += 1
                     if e[:1] == [0] and e[1] > 0:
-                        nontriv.add(left + json.dumps(progs[i][1], sort_keys=True))
+                        nontriv.add(json.dumps(left) + json.dumps(progs[i][1], sort_keys=True))
+                if kind in ("extends_child", "from_import") and model[i][:1] != [0]:
+                    continue        # a failing program fails through the layout / the import with another kind (BadInclude): not compared
                 if e != model[i]:
                     eq_bad.append((i, kind, left, rel, e))
     # ---- loop attributes in every read order: engine vs the oracle on the iterated sequence ----
@@ -1279,6 +1323,28 @@ def main():
         d = {"index": -1, "model": "undecodable request", "real": ""} if ms is None else first_diff(ms, rs)
         if d:
             mismatches.append((i, d))
+    # ---- the same programs printed with minimal parentheses: same rendering, same instruction stream ----
+    mp_bad = []
+    mp_idx = []
+    for i, (body, ctx, mode) in enumerate(progs):
+        try:
+            msrc = min_body(body)
+        except (ValueError, KeyError):
+            continue
+        if msrc != reqs[i]["templates"]["main"]:
+            mp_idx.append((i, msrc))
+    if mp_idx:
+        mreqs = [{"templates": {"main": msrc}, "main": "main", "ctx": progs[i][1], "undefined": progs[i][2], "ops": ["render", "instructions"]} for i, msrc in mp_idx]
+        for (i, msrc), r in zip(mp_idx, run_prog(mreqs, release=False)):
+            e = expect(r)
+            ins = r.get("instructions")
+            d = None
+            if ins and impl_dbg[i].get("instructions"):
+                d = first_diff(real_stream(impl_dbg[i]["instructions"]["main"]), real_stream(ins["main"]))
+            elif bool(ins) != bool(impl_dbg[i].get("instructions")):
+                d = {"index": -1, "model": "compiles" if impl_dbg[i].get("instructions") else "does not compile", "real": "compiles" if ins else "does not compile"}
+            if e != model[i] or d:
+                mp_bad.append((i, msrc, e, d))
     bad_idx = {i for i, _, _, _ in bad}
     harmless, harmful = [], []
     extra_ctx_runs = 0
@@ -1325,13 +1391,15 @@ def main():
     chk.cov["evaluations"] = 2 * len(progs) + extra_ctx_runs
     chk.cov["distinct_nontrivial"] = len(nontriv)
     chk.cov["programs"] = len(progs)
-    chk.cov["rule"] = ("typed random core-fragment programs (depth 2-4) x random contexts of ints/strings/bools/lists/maps, the map_family of this file under all four undefined modes, the exhaustive closure/scoping family of tools/proggen.py::closure_family, the families of this file (sibling_family: macros of one scope sharing free names, one re-binds a name locally, the others are called afterwards, recursion + call blocks; loop_and_rebinding_family: `loop` in the filter / subject / else part of an inner loop, one name called while bound to different callables; equivalence_family: unpacking set / with and loops over strings through their element-wise equivalents inside the fragment; loop_attr_family: all 13 loop attributes in every read order against an oracle on the iterated sequence, engine only; literal_family: expressions whose operands are all literals - what the compiler folds -: every pair / triple of comparison operators in a chain over equal, monotone and non-monotone literal operands, the chains inside if / elif / loop filter / set / with / macro default / argument, random literal-only expressions; macro_call_family: macros with 2-5 parameters called with every positional prefix x every subset of the remaining parameters by keyword in every order incl. gaps, the error cases, the same through call blocks with keyword arguments and through caller(...) into call blocks with parameters - the last two by equivalence with plain macros), plus standalone expressions `{{ e }}` (depth 2-4, "
+    chk.cov["rule"] = ("typed random core-fragment programs (depth 2-4) x random contexts of ints/strings/bools/lists/maps, the map_family of this file under all four undefined modes, the exhaustive closure/scoping family of tools/proggen.py::closure_family, the families of this file (sibling_family: macros of one scope sharing free names, one re-binds a name locally, the others are called afterwards, recursion + call blocks; loop_and_rebinding_family: `loop` in the filter / subject / else part of an inner loop, one name called while bound to different callables; equivalence_family: unpacking set / with and loops over strings through their element-wise equivalents inside the fragment; loop_attr_family: all 13 loop attributes in every read order against an oracle on the iterated sequence, engine only; literal_family: expressions whose operands are all literals - what the compiler folds -: every pair / triple of comparison operators in a chain over equal, monotone and non-monotone literal operands, the chains inside if / elif / loop filter / set / with / macro default / argument, random literal-only expressions; macro_call_family: macros with 2-5 parameters called with every positional prefix x every subset of the remaining parameters by keyword in every order incl. gaps, the error cases, the same through call blocks with keyword arguments and through caller(...) into call blocks with parameters - the last two by equivalence with plain macros; precedence_family: every expression form directly under every other one in every operand position its type admits, operator chains, chained conditionals; capture_family: leading set-blocks of every shape feeding variables and macros; EVERY program is also printed with minimal parentheses - same rendering and same instruction stream required -, and the programs with leading definitions also run as the child of a trivial layout and as library + from-import), plus standalone expressions `{{ e }}` (depth 2-4, "
                        "possibly undefined variables, all four undefined modes); each rendered by the engine (debug+release), by the extracted reference interpreter and by the "
                        "extracted model VM on the model compiler's stream; each program's real instruction stream compared with the model compiler's; "
                        "non-trivial = distinct (program, context, mode) rendering to non-empty output without error, programs with >= 3 statement nodes")
     chk.cov["samples"] = [reqs[i]["templates"]["main"] for i in (0, n_stmt // 2, max(0, n_stmt - 1), len(reqs) - 1)]
     chk.cov["distribution"] = {"outcomes": dict(hist), "constructs": dict(kinds), "sizes": dict(sizes), "real_opcodes": dict(opc)}
     chk.cov["engine_vs_interpreter_disagreements"] = len(bad)
+    chk.cov["minimal_parentheses"] = {"programs_reprinted": len(mp_idx), "disagreements": len(mp_bad),
+                                      "rule": "every program whose printing with only the necessary parentheses (min_expr: documented precedence and associativity) differs from the fully parenthesized one: engine(minimal source) must render the interpreter's verdict on the AST and compile to the instruction stream of the parenthesized source"}
     chk.cov["loop_attr_family"] = {"cases": dict(or_hist), "disagreements": len(or_bad),
                                    "rule": "engine output = oracle of tools/props/C03.py (_attr_val) on the iterated sequence: 13 loop attributes (incl. previtem, nextitem, depth, depth0, cycle, changed) in every ordered pair (first read in every iteration / only in iteration 1, 2, 3), every ordered triple of the 8 attributes sharing iterator state, random permutations; lists, strings, maps, range, lazy filter results, filtered, empty, nested (outer loop read from inside), recursive loops"}
     chk.cov["equivalence_family"] = {"cases": dict(eq_hist), "disagreements": len(eq_bad),
@@ -1366,6 +1434,23 @@ def main():
         chk.violation("engine output differs from the reference semantics",
                       {"template": src, "context": ctx, "mode": mode, "profile": "release" if rel else "debug", "engine": r.get("render", r),
                        "reference": ("".join(chr(c) for c in mm[2:]) if mm[:1] == [0] else mm), "ast": repr(small_body)})
+    for i, msrc, e, d in sorted(mp_bad, key=lambda t: len(t[1]))[:3]:
+        body, ctx, mode = progs[i]
+        def still_mp(b):
+            try:
+                ms2 = min_body(b)
+            except (ValueError, KeyError):
+                return False
+            r2 = run_prog([{"templates": {"main": ms2}, "main": "main", "ctx": ctx, "undefined": mode, "ops": ["render"]}])[0]
+            m2 = run_model("C03", "c03", [langenc.request(b, ctx, mode=mode)[0]])[0]
+            return expect(r2) != m2
+        sb = proggen.shrink(body, still_mp, budget=120) if e != model[i] else body
+        ms2 = min_body(sb)
+        r2 = run_prog([{"templates": {"main": ms2}, "main": "main", "ctx": ctx, "undefined": mode, "ops": ["render"]}])[0]
+        m2 = run_model("C03", "c03", [langenc.request(sb, ctx, mode=mode)[0]])[0]
+        chk.violation("the parser does not group an expression written without redundant parentheses as the documented precedence / associativity says (rendering or instruction stream differs from the fully parenthesized source)",
+                      {"template": ms2, "parenthesized_template": proggen.body_src(sb), "context": ctx, "mode": mode, "engine": r2.get("render", r2),
+                       "reference": ("".join(chr(c) for c in m2[2:]) if m2[:1] == [0] else m2), "first_stream_difference_vs_parenthesized": d, "ast": repr(sb)})
     seen_or = set()
     for src, ctx, exp, kind, rel, rr in sorted(or_bad, key=lambda t: len(t[0])):
         if src in seen_or or len(seen_or) >= 3:
@@ -1384,6 +1469,8 @@ def main():
                        "unpack_with": "unpacking with-assignment does not evaluate the right-hand side completely before binding the targets (differs from its sequential equivalent under the reference semantics)",
                        "string_loop": "a loop over a string is not the loop over its characters (loop.* fields / items differ from the reference semantics of the character list)",
                        "callblock_kwargs": "a macro called through a call block with keyword arguments does not bind them as the same call of a plain macro does under the reference semantics",
+                       "extends_child": "a program whose leading definitions (set / set-block / macro) stand at the top level of a template extending a trivial layout and whose other statements stand in its one block does not render what it renders alone",
+                       "from_import": "a program whose leading definitions (set / set-block / macro) are imported with from-import from a library template does not render what it renders alone",
                        "caller_params": "caller(...) does not bind the parameters of the call block as the same call of a plain macro does under the reference semantics"}.get(kind, "engine output differs from the reference semantics of the equivalent program"),
                       {"template": left, "left_template": left, "kind": kind, "context": progs[i][1], "mode": progs[i][2], "profile": "release" if rel else "debug",
                        "engine": ("".join(chr(c) for c in e[2:]) if e[:1] == [0] else e),
